@@ -376,6 +376,43 @@ def gen_schema(rng, with_signers=False, n_rules=None, allow_fn=True, defect24_cl
     return {'rules': rules}
 
 
+def alt_counts(schema):
+    """Number of alternatives and maximal name length per rule, computed without materialising the expansions
+    (nested doubled references grow exponentially).  -> (total alternatives, max length)"""
+    defs = {}
+    for r in schema['rules']:
+        defs.setdefault(r['name'], []).append(r)
+    memo = {}
+
+    def cnt(rn, depth=0):
+        if rn in memo:
+            return memo[rn]
+        if depth > 50 or rn not in defs:
+            return (1, 0)
+        total, mlen = 0, 0
+        for d in defs[rn]:
+            c, ln = max(1, len(d['cons'])), 0
+            for comp in d['comps']:
+                if comp[0] == 'ref':
+                    rc_, rl = cnt(comp[1], depth + 1)
+                    c *= rc_
+                    ln += rl
+                else:
+                    ln += 1
+                if c > 10**9:
+                    c = 10**9
+            total += c
+            mlen = max(mlen, ln)
+        memo[rn] = (total, mlen)
+        return memo[rn]
+    tot, ml = 0, 0
+    for rn in defs:
+        c, l_ = cnt(rn)
+        tot += c
+        ml = max(ml, l_)
+    return tot, ml
+
+
 def all_names(alphabet, max_len, limit, rng):
     """All names of length 1..max_len over the alphabet (sampled when more than limit)."""
     total = sum(len(alphabet) ** k for k in range(1, max_len + 1))
